@@ -339,9 +339,18 @@ pub fn gen_faults(rng: &mut Rng, stream: &Stream, n: usize, enabled: u32) -> Vec
                 Fault::Wc(j, v.min(0xFFFF) as u16)
             }
             6 => {
-                let v = match rng.below(4) {
+                let max_opcode = s.insts.iter().map(|g| g.opcode).max().unwrap_or(0);
+                let v = match rng.below(8) {
                     0 => rng.below(0x10000) as u16,
                     1 => 0xFFFF,
+                    // boundaries of the opcode space: one past the last declared opcode, opcode 0 (OpNop)
+                    2 => max_opcode.wrapping_add(1),
+                    3 => 0,
+                    4 => {
+                        // the neighbour of a declared opcode (usually a hole in the table)
+                        let o = s.insts[rng.usize_below(s.insts.len())].opcode;
+                        if rng.chance(1, 2) { o.wrapping_add(1) } else { o.wrapping_sub(1) }
+                    }
                     _ => s.insts[rng.usize_below(s.insts.len())].opcode,
                 };
                 Fault::Opcode(j, v)
@@ -399,7 +408,14 @@ pub fn gen_faults(rng: &mut Rng, stream: &Stream, n: usize, enabled: u32) -> Vec
                 Fault::InstWord(j, k, v)
             }
             8 => Fault::OperandDrop(j, if ilen > 1 { rng.range(1, ilen as u64 - 1) as usize } else { 1 }),
-            9 => Fault::OperandExtra(j, rng.range(1, ilen as u64) as usize, rng.word()),
+            9 => {
+                // half of the time aim at an instruction without operands (OpNop, OpReturn, OpFunctionEnd, ...): any
+                // payload there is surplus by definition
+                let bare: Vec<usize> = stream.insts.iter().enumerate().filter(|(_, i)| inst_words(i) == 1).map(|(j, _)| j).collect();
+                let j = if !bare.is_empty() && rng.chance(1, 2) { *rng.pick(&bare) } else { j };
+                let ilen = stream.insts.get(j).map(inst_words).unwrap_or(1);
+                Fault::OperandExtra(j, rng.range(1, ilen as u64) as usize, rng.word())
+            }
             10 => {
                 let with_str: Vec<usize> = stream.insts.iter().enumerate().filter(|(_, i)| i.ops.iter().any(|o| matches!(o, MOp::S(_)))).map(|(j, _)| j).collect();
                 if with_str.is_empty() {
